@@ -5,9 +5,10 @@
    well-formedness = [wfb] (i64 range; reduced Ratio<i32> with positive denominator;
    a BigInt may carry a small value), exactness = [is_exact].  [p] is the build
    profile (Debug: overflow panics, Release: wraps): theorems hold for both.      *)
-From Coq Require Import ZArith QArith List.
+From Coq Require Import ZArith QArith Qround Qabs List.
 From MW Require Import Model.Base Model.F64 Model.Num Model.Ratio32 Model.NumArith Model.NumSpec
-  Proofs.GcdProofs Proofs.Ratio32Proofs Proofs.NumProofs Proofs.NumDivProofs Proofs.NumInexactProofs.
+  Proofs.GcdProofs Proofs.Ratio32Proofs Proofs.NumProofs Proofs.NumDivProofs Proofs.NumInexactProofs
+  Proofs.CmpProofs Proofs.NumUnaryProofs Proofs.NumPowProofs Proofs.NumFoldProofs Proofs.NumIntRatProofs.
 Import ListNotations.
 Open Scope Z_scope.
 
@@ -199,8 +200,8 @@ Print Assumptions C08_ratio_reduce_signed.
    (C08_add_known_fallback_tight).
    The same is proved uniformly for + - * below (C08_op_*, C08_full_addsubmul_outside).
    ... and for / (C08_div_outcome, C08_full_outside).
-   STILL OPEN: the variadic folds of the builtins (+ - * / applied to argument lists), modulo's
-   inexactness, abs floor ceiling truncate numerator denominator expt. *)
+   The variadic procedures, abs floor ceiling truncate round numerator denominator expt: see the
+   section "Work package c08b" at the end of this file.  STILL OPEN: when a fold is inexact. *)
 Definition C08_inexact_only_if_stmt : Prop := forall p a b r (known_fallback : num -> num -> bool),
   wfb a = true -> wfb b = true -> is_exact a = true -> is_exact b = true ->
   known_fallback a b = false -> num_add p a b = Ok r -> is_exact r = false ->
@@ -343,7 +344,7 @@ Print Assumptions C08_inexact_only_if_refuted.
    class: (1) i64::MIN by -1/1 panics (MIN % -1, both profiles); (2) rem + divisor outside
    i32: checked_add answers None, modulo continues on floats and the result is inexact.
    Outside it the theorem holds for every pair of integer representations, both profiles.
-   STILL OPEN: abs floor ceiling truncate numerator denominator expt. *)
+   Two integer-valued Rationals: C08_modulo_exact_rr below. *)
 Definition C08_modulo_exact_stmt : Prop := forall p a b za zb,
   wfb a = true -> wfb b = true -> int_of a = Some za -> int_of b = Some zb -> zb <> 0 ->
   both_rational a b = false ->
@@ -453,4 +454,374 @@ Example C08_example_modulo :
   modulo_known (Fixnum (2 ^ 31 - 2)) (Rational (2 ^ 31 - 1) 1) = true /\
   rem_known (Fixnum (-7)) (Rational 3 1) = false /\
   num_rem Debug (Fixnum (-7)) (Rational 3 1) = Ok (Some (Rational (-1) 1)).
+Proof. repeat split; vm_compute; reflexivity. Qed.
+
+
+(* ========================================================================================
+   Work package c08b: abs numerator denominator / floor ceiling truncate round / expt / the
+   variadic procedures / quotient remainder modulo of two integer-valued Rationals.
+   Shape of every group: [x_known] is the decidable, spelled-out class of operands on which the
+   Debug build panics (an i32 overflow inside a num-rational primitive = the recorded finding
+   ratio32-overflow-panic); outside it the result exists in BOTH profiles, is exact,
+   well-formed and is the true value; "Debug panics <-> class" is a theorem.  None of the unary
+   operations ever answers an inexact number on an exact operand.
+   ======================================================================================== *)
+
+(* ---- 1. abs, numerator, denominator *)
+(* class: a Rational whose numerator is i32::MIN (Ratio::abs negates it) *)
+Theorem C08_abs_exact : forall p a, wfb a = true -> is_exact a = true -> abs_known a = false ->
+  exists r, num_abs p a = Ok r /\ is_exact r = true /\ wfb r = true /\ (qv r == Qabs (qv a))%Q.
+Proof. exact abs_exact. Qed.
+Print Assumptions C08_abs_exact.
+
+Theorem C08_abs_debug_panics_iff : forall a, wfb a = true -> is_exact a = true ->
+  ((exists s, num_abs Debug a = Panic s) <-> abs_known a = true).
+Proof. exact abs_debug_panics_iff. Qed.
+Print Assumptions C08_abs_debug_panics_iff.
+
+(* inside the class the Release build returns its negative operand: a wrong exact value *)
+Theorem C08_abs_known_outcome : forall a, wfb a = true -> abs_known a = true ->
+  num_abs Debug a = Panic P_OVERFLOW /\ num_abs Release a = Ok a /\ (qv a < 0)%Q.
+Proof. exact abs_known_outcome. Qed.
+Print Assumptions C08_abs_known_outcome.
+
+(* numerator / denominator: exact integers n, d > 0 in lowest terms with value n/d; total,
+   profile independent *)
+Theorem C08_numden_exact : forall a, wfb a = true -> is_exact a = true ->
+  exists n d, int_of (num_numerator a) = Some n /\ int_of (num_denominator a) = Some d /\
+    wfb (num_numerator a) = true /\ wfb (num_denominator a) = true /\
+    is_exact (num_numerator a) = true /\ is_exact (num_denominator a) = true /\
+    0 < d /\ Z.gcd n d = 1 /\ (qv a == n # Z.to_pos d)%Q.
+Proof. exact numden_exact. Qed.
+Print Assumptions C08_numden_exact.
+
+Example C08_example_abs_numden :
+  abs_known (Rational (-7) 3) = false /\ num_abs Release (Rational (-7) 3) = Ok (Rational 7 3) /\
+  num_abs Debug (Fixnum (- 2 ^ 63)) = Ok (BigInt (2 ^ 63)) /\
+  abs_known (Rational (- 2 ^ 31) 3) = true /\
+  num_numerator (Rational (-7) 3) = Fixnum (-7) /\ num_denominator (Rational (-7) 3) = Fixnum 3 /\
+  num_denominator (BigInt (2 ^ 70)) = Fixnum 1.
+Proof. repeat split; vm_compute; reflexivity. Qed.
+
+(* ---- 2. floor ceiling truncate round.  Specifications: Qfloor / Qceiling of the standard
+   library, Qtruncate x = numerator quot denominator (= rounding toward zero,
+   C08_truncate_toward_zero), Qround_away x = sign(x) * floor(|x| + 1/2). *)
+Theorem C08_truncate_exact : forall a, wfb a = true -> is_exact a = true ->
+  exists r, num_truncate a = Ok r /\ is_exact r = true /\ wfb r = true /\
+    int_of r = Some (Qtruncate (qv a)).
+Proof. exact truncate_exact. Qed.
+Print Assumptions C08_truncate_exact.
+
+Theorem C08_truncate_toward_zero : forall x,
+  Qtruncate x = if Qnum x <? 0 then Qceiling x else Qfloor x.
+Proof. exact Qtruncate_spec. Qed.
+Print Assumptions C08_truncate_toward_zero.
+
+(* floor class: negative Rational n/d with n - d < i32::MIN  (nr:181-190 computes n - d + 1) *)
+Theorem C08_floor_exact : forall p a, wfb a = true -> is_exact a = true -> floor_known a = false ->
+  exists r, num_floor p a = Ok r /\ is_exact r = true /\ wfb r = true /\
+    int_of r = Some (Qfloor (qv a)).
+Proof. exact floor_exact. Qed.
+Print Assumptions C08_floor_exact.
+
+Theorem C08_floor_debug_panics_iff : forall a, wfb a = true -> is_exact a = true ->
+  ((exists s, num_floor Debug a = Panic s) <-> floor_known a = true).
+Proof. exact floor_debug_panics_iff. Qed.
+Print Assumptions C08_floor_debug_panics_iff.
+
+(* ceiling class: non-negative Rational n/d with n + d > i32::MAX  (nr:194-204: n + d - 1) *)
+Theorem C08_ceiling_exact : forall p a, wfb a = true -> is_exact a = true -> ceil_known a = false ->
+  exists r, num_ceil p a = Ok r /\ is_exact r = true /\ wfb r = true /\
+    int_of r = Some (Qceiling (qv a)).
+Proof. exact ceil_exact. Qed.
+Print Assumptions C08_ceiling_exact.
+
+Theorem C08_ceiling_debug_panics_iff : forall a, wfb a = true -> is_exact a = true ->
+  ((exists s, num_ceil Debug a = Panic s) <-> ceil_known a = true).
+Proof. exact ceil_debug_panics_iff. Qed.
+Print Assumptions C08_ceiling_debug_panics_iff.
+
+(* round: NO class — never panics, never overflows on a well-formed operand, both profiles;
+   the value is round-half-AWAY-FROM-ZERO *)
+Theorem C08_round_exact : forall p a, wfb a = true -> is_exact a = true ->
+  exists r, num_round p a = Ok r /\ is_exact r = true /\ wfb r = true /\
+    int_of r = Some (Qround_away (qv a)).
+Proof. exact round_exact. Qed.
+Print Assumptions C08_round_exact.
+
+(* FINDING round-half-away (noted "kept as is" by the num package; here machine-checked):
+   R7RS 6.2.6 `round` rounds to even on a tie; (round 5/2) answers 3 (R7RS: 2), (round 1/2) 1
+   (R7RS: 0), (round -5/2) -3 (R7RS: -2); (round 7/2) = 4 agrees.  Qround_even is the R7RS
+   function.  The model follows num-rational's Ratio::round ("Rounds half-way cases away from
+   zero", nr:208) which number.rs:289 calls. *)
+Theorem C08_round_differs_r7rs : forall p,
+  num_round p (Rational 5 2) = Ok (Rational 3 1) /\ Qround_even (qv (Rational 5 2)) = 2 /\
+  num_round p (Rational 1 2) = Ok (Rational 1 1) /\ Qround_even (qv (Rational 1 2)) = 0 /\
+  num_round p (Rational (-5) 2) = Ok (Rational (-3) 1) /\ Qround_even (qv (Rational (-5) 2)) = -2 /\
+  num_round p (Rational 7 2) = Ok (Rational 4 1) /\ Qround_even (qv (Rational 7 2)) = 4.
+Proof. exact round_differs_r7rs. Qed.
+Print Assumptions C08_round_differs_r7rs.
+
+(* ... and that is the whole difference: the answer is the R7RS value exactly outside the decidable
+   class [round_r7rs_known] = a Rational n/2 whose truncation n quot 2 is even (1/2, 5/2, -5/2,
+   9/2 ...; not 3/2, 7/2) *)
+Theorem C08_round_r7rs_iff : forall p a, wfb a = true -> is_exact a = true ->
+  exists r z, num_round p a = Ok r /\ int_of r = Some z /\
+    (z = Qround_even (qv a) <-> round_r7rs_known a = false).
+Proof. exact round_r7rs_iff. Qed.
+Print Assumptions C08_round_r7rs_iff.
+
+Example C08_example_round_r7rs :
+  round_r7rs_known (Rational 5 2) = true /\ round_r7rs_known (Rational (-5) 2) = true /\
+  round_r7rs_known (Rational 7 2) = false /\ round_r7rs_known (Rational (-3) 2) = false /\
+  round_r7rs_known (Rational 5 3) = false /\ round_r7rs_known (Fixnum 4) = false.
+Proof. repeat split; vm_compute; reflexivity. Qed.
+
+(* the builtin procedures abs floor ceiling truncate round numerator denominator are these
+   functions applied to their single argument *)
+Theorem C08_unary_builtin : forall u p x,
+  b_unary u p [ANum x] = do r <- unop_fn u p x; Ok (RNum r).
+Proof. exact b_unary_num. Qed.
+Print Assumptions C08_unary_builtin.
+
+Example C08_example_rounding :
+  floor_known (Rational (-7) 2) = false /\ num_floor Debug (Rational (-7) 2) = Ok (Rational (-4) 1) /\
+  ceil_known (Rational (-7) 2) = false /\ num_ceil Debug (Rational (-7) 2) = Ok (Rational (-3) 1) /\
+  num_ceil Release (Rational 7 2) = Ok (Rational 4 1) /\
+  num_truncate (Rational (-7) 2) = Ok (Rational (-3) 1) /\
+  num_round Debug (Rational (-7) 3) = Ok (Rational (-2) 1) /\
+  num_round Release (Rational (2 ^ 31 - 1) 2) = Ok (Rational (2 ^ 30) 1) /\
+  (* members of the classes, with the wrong exact values of the Release build *)
+  floor_known (Rational (- 2 ^ 31) 3) = true /\
+  num_floor Release (Rational (- 2 ^ 31) 3) = Ok (Rational 715827882 1) /\
+  floor_known (Rational (- 2 ^ 31) 1) = true /\
+  ceil_known (Rational (2 ^ 31 - 1) 2) = true /\
+  num_ceil Release (Rational (2 ^ 31 - 1) 2) = Ok (Rational (-1073741824) 1) /\
+  b_unary UFloor Debug [ANum (Rational (-7) 2)] = Ok (RNum (Rational (-4) 1)).
+Proof. repeat split; vm_compute; reflexivity. Qed.
+
+(* ---- 3. expt.  i32::pow / i64::pow as ported (square-and-multiply, every product checked):
+   the power when it fits, else the Debug build panics; checked_pow = Some exactly when it fits.
+   [nonsq w]: 2^(w-1) is not a perfect square (C08_nonsq: true for 32 and 64) *)
+Theorem C08_int_pow : forall p w b e, 2 <= w -> nonsq w -> 0 <= e <= POW_EXP_MAX ->
+  ipow p w b e =
+  if in_int w (b ^ e) then Ok (b ^ e)
+  else match p with Debug => Panic P_OVERFLOW | Release => ipow Release w b e end.
+Proof. exact ipow_spec. Qed.
+Print Assumptions C08_int_pow.
+
+Theorem C08_checked_pow : forall w b e, 2 <= w -> nonsq w -> 0 <= e <= POW_EXP_MAX ->
+  ichecked_pow w b e = if in_int w (b ^ e) then Some (b ^ e) else None.
+Proof. exact ichecked_pow_spec. Qed.
+Print Assumptions C08_checked_pow.
+
+Theorem C08_nonsq : nonsq 32 /\ nonsq 64.
+Proof. exact (conj nonsq32 nonsq64). Qed.
+Print Assumptions C08_nonsq.
+
+(* Fixnum base: a Fixnum exactly when the power fits i64, else the BigInt; never a panic *)
+Theorem C08_expt_fixnum : forall p z e, 0 <= e <= U32_MAX ->
+  num_pow p (Fixnum z) e = Ok (if in_i64 (z ^ e) then Fixnum (z ^ e) else BigInt (z ^ e)).
+Proof. exact pow_fixnum. Qed.
+Print Assumptions C08_expt_fixnum.
+
+(* any exact base, u32 exponent.  [pow_known]: Rational n/d, e <= i32::MAX and n^e or d^e
+   outside i32; [pow_libm]: Rational base and e > i32::MAX (number.rs:332 calls powf: libm is
+   not modelled, the model answers Err E_LIBM: C08_expt_libm) *)
+Theorem C08_expt_exact : forall p a e, wfb a = true -> is_exact a = true -> 0 <= e <= U32_MAX ->
+  pow_known a e = false -> pow_libm a e = false ->
+  exists r, num_pow p a e = Ok r /\ is_exact r = true /\ wfb r = true /\ (qv r == qv a ^ e)%Q.
+Proof. exact pow_exact. Qed.
+Print Assumptions C08_expt_exact.
+
+Theorem C08_expt_debug_panics_iff : forall a e, wfb a = true -> is_exact a = true -> 0 <= e <= U32_MAX ->
+  ((exists s, num_pow Debug a e = Panic s) <-> pow_known a e = true).
+Proof. exact pow_debug_panics_iff. Qed.
+Print Assumptions C08_expt_debug_panics_iff.
+
+Theorem C08_expt_libm : forall p a e, pow_libm a e = true -> num_pow p a e = Err E_LIBM.
+Proof. exact pow_libm_outcome. Qed.
+Print Assumptions C08_expt_libm.
+
+(* the builtin: an exact integer exponent in any representation (Fixnum, BigInt, k/1) whose value
+   is a u32 reaches Number::pow; any other integer exponent is an error, never a value *)
+Theorem C08_expt_builtin : forall p x e k, wfb e = true -> int_of e = Some k -> 0 <= k <= U32_MAX ->
+  b_expt p [ANum x; ANum e] = do r <- num_pow p x k; Ok (RNum r).
+Proof. exact b_expt_num. Qed.
+Print Assumptions C08_expt_builtin.
+
+Theorem C08_expt_out_of_range : forall p x e k, wfb e = true -> int_of e = Some k ->
+  ~ (0 <= k <= U32_MAX) -> b_expt p [ANum x; ANum e] = Err E_OTHER.
+Proof. exact b_expt_out_of_range. Qed.
+Print Assumptions C08_expt_out_of_range.
+
+Example C08_example_expt :
+  num_pow Debug (Fixnum (-2)) 63 = Ok (Fixnum (- 2 ^ 63)) /\
+  num_pow Debug (Fixnum 2) 63 = Ok (BigInt (2 ^ 63)) /\
+  num_pow Release (Fixnum 3) 40 = Ok (BigInt 12157665459056928801) /\
+  pow_known (Rational (-2) 3) 19 = false /\
+  num_pow Debug (Rational (-2) 3) 19 = Ok (Rational (-524288) 1162261467) /\
+  pow_known (Rational (-2) 3) 20 = true /\
+  pow_known (Rational 1 2) 40 = true /\
+  (* the Release build inside the class: the ill-formed exact 1/0 *)
+  num_pow Release (Rational 1 2) 40 = Ok (Rational 1 0) /\
+  b_expt Debug [ANum (Rational 2 3); ANum (Rational 3 1)] = Ok (RNum (Rational 8 27)) /\
+  b_expt Release [ANum (Fixnum 2); ANum (BigInt 100)] = Ok (RNum (BigInt (2 ^ 100))) /\
+  pow_libm (Rational 1 1) (2 ^ 31) = true.
+Proof. repeat split; vm_compute; reflexivity. Qed.
+
+(* ---- 4. the variadic procedures on exact well-formed arguments ([exact_wf]).  An inexact
+   accumulator stays inexact, so an exact final result means that every step was exact; then it is
+   the n-ary operation.  Qsum / Qprod: fold_right Qplus 0 / Qmult 1. *)
+Theorem C08_plus_exact : forall p l r, Forall exact_wf l ->
+  b_plus p (map ANum l) = Ok (RNum r) -> is_exact r = true ->
+  wfb r = true /\ (qv r == Qsum (map qv l))%Q.
+Proof. exact plus_exact. Qed.
+Print Assumptions C08_plus_exact.
+
+Theorem C08_plus_total : forall p l, Forall exact_wf l -> exists r, b_plus p (map ANum l) = Ok (RNum r).
+Proof. exact plus_total. Qed.
+Print Assumptions C08_plus_total.
+
+Theorem C08_multiply_exact : forall p l r, Forall exact_wf l ->
+  b_multiply p (map ANum l) = Ok (RNum r) -> is_exact r = true ->
+  wfb r = true /\ (qv r == Qprod (map qv l))%Q.
+Proof. exact multiply_exact. Qed.
+Print Assumptions C08_multiply_exact.
+
+Theorem C08_multiply_total : forall p l, Forall exact_wf l ->
+  exists r, b_multiply p (map ANum l) = Ok (RNum r).
+Proof. exact multiply_total. Qed.
+Print Assumptions C08_multiply_total.
+
+(* (- a) = -a, (- a b c ...) = a - (b + c + ...) : Qminus_nary *)
+Theorem C08_minus_exact : forall p a others r, exact_wf a -> Forall exact_wf others ->
+  b_minus p (map ANum (a :: others)) = Ok (RNum r) -> is_exact r = true ->
+  wfb r = true /\ (qv r == Qminus_nary (qv a) (map qv others))%Q.
+Proof. exact minus_exact. Qed.
+Print Assumptions C08_minus_exact.
+
+(* / takes one or two arguments (builtin/number.rs:209-226); an exact zero divisor is an error *)
+Theorem C08_divide_exact : forall p x y r, exact_wf x -> exact_wf y -> ~ (qv y == 0)%Q ->
+  (forall s, num_div Debug x y <> Panic s) ->
+  b_divide p [ANum x; ANum y] = Ok (RNum r) -> is_exact r = true ->
+  wfb r = true /\ (qv r * qv y == qv x)%Q.
+Proof. exact divide_exact. Qed.
+Print Assumptions C08_divide_exact.
+
+Theorem C08_reciprocal_exact : forall p y r, exact_wf y -> ~ (qv y == 0)%Q ->
+  (forall s, num_div Debug (Fixnum 1) y <> Panic s) ->
+  b_divide p [ANum y] = Ok (RNum r) -> is_exact r = true ->
+  wfb r = true /\ (qv r * qv y == 1)%Q.
+Proof. exact reciprocal_exact. Qed.
+Print Assumptions C08_reciprocal_exact.
+
+Theorem C08_divide_zero : forall p x y, exact_wf y -> (qv y == 0)%Q ->
+  b_divide p [ANum x; ANum y] = Err E_OTHER /\ b_divide p [ANum y] = Err E_OTHER.
+Proof. exact b_divide_zero. Qed.
+Print Assumptions C08_divide_zero.
+
+(* the builtin / is Number::div on its operands, so C08_div_outcome / C08_full_outside apply *)
+Theorem C08_divide_builtin : forall p x y, exact_wf y -> ~ (qv y == 0)%Q ->
+  b_divide p [ANum x; ANum y] = (do r <- num_div p x y; Ok (RNum r)) /\
+  b_divide p [ANum y] = (do r <- num_div p (Fixnum 1) y; Ok (RNum r)).
+Proof. intros p x y H N. exact (conj (b_divide_2 p x y H N) (b_divide_1 p y H N)). Qed.
+Print Assumptions C08_divide_builtin.
+
+(* min / max of n >= 2 exact arguments: one of the arguments (hence exact and well-formed; no
+   representation change) bounding all of them; total in both profiles *)
+Theorem C08_minmax_nary : forall (is_max : bool) p l, (2 <= length l)%nat -> Forall exact_wf l ->
+  exists m, b_minmax is_max p (map ANum l) = Ok (RNum m) /\ In m l /\
+    Forall (fun x => mm_le is_max x m) l.
+Proof. exact minmax_nary. Qed.
+Print Assumptions C08_minmax_nary.
+
+(* member of float-fallback-representable that exists only for folds: every step of
+   (+ 1/2 1/2 4294967296) is justified (2^32 + 1/2 is not representable), the final sum
+   4294967297 is a Fixnum, the result is the float 4294967297.0 — in both profiles *)
+Theorem C08_plus_fold_inexact_representable : forall p,
+  inexact_res (b_plus p [ANum (Rational 1 2); ANum (Rational 1 2); ANum (Fixnum (2 ^ 32))]) = true /\
+  (qv (Fixnum (2 ^ 32 + 1)) == Qsum (map qv [Rational 1 2; Rational 1 2; Fixnum (2 ^ 32)]))%Q /\
+  wfb (Fixnum (2 ^ 32 + 1)) = true.
+Proof. exact plus_fold_inexact_representable. Qed.
+Print Assumptions C08_plus_fold_inexact_representable.
+
+Example C08_example_folds :
+  b_plus Debug [ANum (BigInt (2 ^ 70)); ANum (Rational 1 2); ANum (Fixnum 3); ANum (Rational 1 2)]
+    = Ok (RNum (BigInt (2 ^ 70 + 4))) /\
+  b_multiply Debug [ANum (Rational 2 3); ANum (Fixnum 3); ANum (Rational 5 2)] = Ok (RNum (Rational 5 1)) /\
+  b_minus Debug [ANum (Rational 2 3); ANum (Fixnum 3); ANum (Rational 5 3)] = Ok (RNum (Rational (-4) 1)) /\
+  b_minus Release [ANum (Rational 2 3)] = Ok (RNum (Rational (-2) 3)) /\
+  b_divide Release [ANum (Rational 2 3)] = Ok (RNum (Rational 3 2)) /\
+  b_divide Release [ANum (Fixnum 6); ANum (Rational (-4) 3)] = Ok (RNum (Rational (-9) 2)) /\
+  b_minmax true Release [ANum (Fixnum 6); ANum (Rational 13 2); ANum (BigInt 5)] = Ok (RNum (Rational 13 2)) /\
+  b_minmax false Debug [ANum (Fixnum 6); ANum (Rational 13 2); ANum (BigInt 5); ANum (Rational 11 2)]
+    = Ok (RNum (BigInt 5)) /\
+  exact_wf (Rational 13 2) /\ exact_wf (BigInt 5).
+Proof. repeat split; vm_compute; reflexivity. Qed.
+
+(* ---- 5. quotient / remainder / modulo of TWO integer-valued Rationals (ln/1 by rn/1): the pair
+   excluded by [both_rational a b = false] from C08_quotient_exact, C08_remainder_exact_gen,
+   C08_modulo_exact.  quotient class [quotient_rr_known], g = gcd(ln, rn):
+   rn = MIN and ln in {0, MIN} (|MIN| in Integer::gcd), or rn < 0 and ln/g = MIN or rn/g = MIN
+   (Ratio::new negates both components: e.g. MIN/1 by -1/1).  Panics in Debug; the Release build
+   answers MIN for (quotient MIN/1 -1/1) — a wrong exact value (example below). *)
+Theorem C08_quotient_exact_rr : forall p a b za zb,
+  wfb a = true -> wfb b = true -> int_of a = Some za -> int_of b = Some zb -> zb <> 0 ->
+  both_rational a b = true -> quotient_rr_known a b = false ->
+  exists r, num_quotient p a b = Ok (Some r) /\ int_of r = Some (Z.quot za zb) /\ wfb r = true.
+Proof. exact quotient_exact_rr. Qed.
+Print Assumptions C08_quotient_exact_rr.
+
+Theorem C08_quotient_rr_debug_panics_iff : forall a b za zb,
+  wfb a = true -> wfb b = true -> int_of a = Some za -> int_of b = Some zb -> zb <> 0 ->
+  both_rational a b = true ->
+  ((exists s, num_quotient Debug a b = Panic s) <-> quotient_rr_known a b = true).
+Proof. exact quotient_rr_debug_panics_iff. Qed.
+Print Assumptions C08_quotient_rr_debug_panics_iff.
+
+(* remainder: the only excluded pair is MIN/1 by -1/1, which panics in BOTH profiles *)
+Theorem C08_remainder_exact_rr : forall p a b za zb,
+  wfb a = true -> wfb b = true -> int_of a = Some za -> int_of b = Some zb -> zb <> 0 ->
+  both_rational a b = true -> rem_rr_known a b = false ->
+  exists r, num_rem p a b = Ok (Some r) /\ int_of r = Some (Z.rem za zb) /\ wfb r = true.
+Proof. exact remainder_exact_rr. Qed.
+Print Assumptions C08_remainder_exact_rr.
+
+Theorem C08_remainder_rr_known_panics : forall p a b, rem_rr_known a b = true ->
+  wfb a = true -> wfb b = true -> both_rational a b = true ->
+  forall za zb, int_of a = Some za -> int_of b = Some zb -> num_rem p a b = Panic P_DIVOVF.
+Proof. exact remainder_rr_known_panics. Qed.
+Print Assumptions C08_remainder_rr_known_panics.
+
+(* modulo: class = that pair, or rem + divisor outside i32 (checked_add = None: the result is then
+   inexact, never a wrong exact value: C08_modulo_rr_known_inexact) *)
+Theorem C08_modulo_exact_rr : forall p a b za zb,
+  wfb a = true -> wfb b = true -> int_of a = Some za -> int_of b = Some zb -> zb <> 0 ->
+  both_rational a b = true -> modulo_rr_known a b = false ->
+  exists r, num_modulo p a b = Ok (Some r) /\ int_of r = Some (za mod zb) /\ wfb r = true.
+Proof. exact modulo_exact_rr. Qed.
+Print Assumptions C08_modulo_exact_rr.
+
+Theorem C08_modulo_rr_known_inexact : forall p a b za zb,
+  wfb a = true -> wfb b = true -> int_of a = Some za -> int_of b = Some zb -> zb <> 0 ->
+  both_rational a b = true -> rem_rr_known a b = false -> modulo_rr_known a b = true ->
+  exists o, num_modulo p a b = Ok o /\ forall r, o = Some r -> is_exact r = false.
+Proof. exact modulo_rr_known_inexact. Qed.
+Print Assumptions C08_modulo_rr_known_inexact.
+
+Example C08_example_int_rationals :
+  quotient_rr_known (Rational (-7) 1) (Rational 2 1) = false /\
+  num_quotient Debug (Rational (-7) 1) (Rational 2 1) = Ok (Some (Rational (-3) 1)) /\
+  quotient_rr_known (Rational (- 2 ^ 31) 1) (Rational (-2) 1) = false /\
+  num_quotient Debug (Rational (- 2 ^ 31) 1) (Rational (-2) 1) = Ok (Some (Rational (2 ^ 30) 1)) /\
+  quotient_rr_known (Rational (- 2 ^ 31) 1) (Rational (-1) 1) = true /\
+  num_quotient Release (Rational (- 2 ^ 31) 1) (Rational (-1) 1) = Ok (Some (Rational (- 2 ^ 31) 1)) /\
+  quotient_rr_known (Rational 3 1) (Rational (- 2 ^ 31) 1) = true /\
+  num_rem Release (Rational (-7) 1) (Rational 2 1) = Ok (Some (Rational (-1) 1)) /\
+  modulo_rr_known (Rational (-7) 1) (Rational 2 1) = false /\
+  num_modulo Debug (Rational (-7) 1) (Rational 2 1) = Ok (Some (Rational 1 1)) /\
+  num_modulo Release (Rational 7 1) (Rational (-2) 1) = Ok (Some (Rational (-1) 1)) /\
+  modulo_rr_known (Rational (2 ^ 31 - 2) 1) (Rational (2 ^ 31 - 1) 1) = true /\
+  rem_rr_known (Rational (2 ^ 31 - 2) 1) (Rational (2 ^ 31 - 1) 1) = false.
 Proof. repeat split; vm_compute; reflexivity. Qed.
